@@ -987,9 +987,10 @@ package engine
 //@   ensures step: fresh(result) && stepped(result, old(*current_state))
 //@   ensures extends: result.match.Replacement.hasValue && len(replText(result.match)) >= len(r0) && ssub(replText(result.match), 0, len(r0)) == r0
 // the text a transform contributes: the documented string form of the value of the FIRST statement that
-// returns (no statement before it returned: the loop stops there), or of `true` when none returns
-//@   ensures text: replText(result.match) == r0 ++ docToStr(final_value)
-//@   ensures value: final_value == (pstate.status == RETURNING ? pstate.currentValue : box(ProcessValueBoolean, mk(ProcessValueBoolean, true)))
+// returns (no statement before it returned: the loop stops there), or of `true` when none returns; stated
+// where the text is handed to WRITESTRING (a postcondition cannot name the locals), which appends it (`extends`)
+//@   atcall WRITESTRING text: arg1 == docToStr(final_value)
+//@   atcall WRITESTRING value: final_value == (pstate.status == RETURNING ? pstate.currentValue : box(ProcessValueBoolean, mk(ProcessValueBoolean, true)))
 //@   loop 2 invariant running: pstate.status != RETURNING && final_value == box(ProcessValueBoolean, mk(ProcessValueBoolean, true))
 //@   loop 1 invariant env != nil && fresh(env) && next_state != nil && fresh(next_state) && varsOk(current_state.variables)
 //@   loop 1 invariant strings: forall k Str :: { select(domain(env), k) } { select(values(env), k) } has(env, k) ==> isStrVar(current_state.variables, k) && env[k] == box(ProcessValueString, mk(ProcessValueString, (current_state.variables.Value[k] as ValueString).Value))
